@@ -67,7 +67,12 @@ def coerce_int(maybe_int: _ScalarValue) -> int:
     if isinstance(maybe_int, int):
         numeric = maybe_int
     elif isinstance(maybe_int, float):
-        numeric = int(maybe_int)
+        try:
+            numeric = int(maybe_int)
+        except (OverflowError, ValueError):
+            # Infinities and NaN (JSON decoders produce them for `1e400`,
+            # `Infinity` or `NaN`).
+            raise ValueError(INVALID_INT % maybe_int)
         if numeric != maybe_int:
             raise ValueError(INVALID_INT % maybe_int)
     elif maybe_int is None:
